@@ -42,18 +42,18 @@ PROPS = {
     "C02": dict(suites=[("hist", 60, 4, 1500, 16), ("scope", 4, 8, 6, 16), ("splitopt", 1, 4, 2, 16)], corr=["search"], oracles=["C02"]),
     "C03": dict(suites=[("hist", 60, 4, 1500, 16), ("scope", 4, 8, 6, 16), ("cells", 1, 16, 2, 16), ("prio", 1, 2, 2, 8), ("sibs", 1, 4, 3, 16)], corr=["search"], oracles=["C03"]),
     "C04": dict(suites=[("parse", 5, 4, 7, 16), ("dup", 1, 4, 2, 4), ("groups", 100, 4, 1500, 16), ("regs", 1, 4, 2, 8)], corr=["parse", "search", "display"], oracles=["C04", "C11", "C01", "C02", "C03"]),
-    "C05": dict(suites=[("hist", 100, 4, 1500, 16), ("orders", 1, 4, 4, 16), ("splitopt", 1, 4, 2, 16)], corr=["search", "display"], oracles=["FUN"]),
+    "C05": dict(suites=[("hist", 100, 4, 1500, 16), ("orders", 1, 4, 4, 16), ("splitopt", 1, 4, 2, 16)], corr=["search", "display", "dump"], oracles=["FUN"]),
     "C06": dict(suites=[("hist", 100, 4, 1500, 16), ("scope", 4, 8, 6, 16), ("splitopt", 1, 4, 2, 16), ("sibs", 1, 4, 3, 16)], corr=["search"], oracles=["C06", "C02"]),
     "C07": dict(suites=[("parse", 5, 4, 7, 16), ("junk", 100, 4, 1500, 16), ("hist", 50, 4, 1500, 16), ("family", 50, 4, 1500, 16), ("regs", 1, 4, 2, 8), ("dup", 1, 4, 2, 8)], corr=["checked", "parse"], oracles=["C07"]),
     "C08": dict(suites=[("hist", 100, 4, 1500, 16), ("dup", 1, 4, 2, 8), ("pairs", 1, 4, 2, 16)], corr=["insert", "search"], oracles=["C08", "C02"]),
-    "C09": dict(suites=[("hist", 100, 4, 1500, 16), ("dup", 1, 4, 2, 8), ("family", 50, 4, 1500, 16), ("pairs", 1, 4, 2, 16), ("clonescope", 1, 4, 2, 16)], corr=["delete", "search", "display"], oracles=["C09", "C01", "C02", "FUN"]),
-    "C10": dict(suites=[("hist", 100, 4, 1500, 16), ("dup", 1, 4, 2, 8)], corr=["insert", "delete", "search", "display"], oracles=["FUN", "C09"]),
+    "C09": dict(suites=[("hist", 100, 4, 1500, 16), ("dup", 1, 4, 2, 8), ("family", 50, 4, 1500, 16), ("pairs", 1, 4, 2, 16), ("clonescope", 1, 4, 2, 16)], corr=["delete", "search", "display", "dump"], oracles=["C09", "C01", "C02", "FUN"]),
+    "C10": dict(suites=[("hist", 100, 4, 1500, 16), ("dup", 1, 4, 2, 8)], corr=["insert", "delete", "search", "display", "dump"], oracles=["FUN", "C09"]),
     "C11": dict(suites=[("parse", 5, 4, 7, 16), ("parsefocus", 7, 4, 9, 16), ("regs", 1, 4, 2, 8)], corr=["parse", "insert"], oracles=["C11"]),
     "C12": dict(suites=[("scope1", 5, 4, 6, 16), ("single", 300, 4, 6000, 16)], corr=["search"], oracles=["C12"]),
     "C13": dict(suites=[("hist", 60, 4, 1500, 16), ("fromstr", 1, 1, 4, 4), ("cells", 1, 16, 2, 16), ("regs", 1, 4, 2, 8)], corr=["constraint", "insert", "search"], oracles=["C13", "C02", "C03"]),
     "C14": dict(suites=[("parse", 5, 4, 7, 16), ("parsefocus", 7, 4, 9, 16), ("regs", 1, 4, 2, 8)], corr=["parse", "render"], oracles=["C14"]),
-    "C15": dict(suites=[("ascii", 100, 4, 1500, 16), ("splitopt", 1, 4, 2, 16), ("prio", 1, 4, 2, 8)], corr=["display"], oracles=["C15"]),
-    "C16": dict(suites=[("family", 100, 4, 1500, 16), ("clonescope", 1, 4, 2, 16), ("clonerank", 1, 8, 2, 16)], corr=["insert", "delete", "search", "display", "clone"], oracles=["FUN", "C09", "C08", "C03"]),
+    "C15": dict(suites=[("ascii", 100, 4, 1500, 16), ("splitopt", 1, 4, 2, 16), ("prio", 1, 4, 2, 8)], corr=["display", "dump"], oracles=["C15"]),
+    "C16": dict(suites=[("family", 100, 4, 1500, 16), ("clonescope", 1, 4, 2, 16), ("clonerank", 1, 8, 2, 16)], corr=["insert", "delete", "search", "display", "clone", "dump"], oracles=["FUN", "C09", "C08", "C03"]),
     "C17": dict(suites=[("oci", 4, 8, 5, 16)], corr=["search"], oracles=["C17"]),
     "C18": dict(suites=[("threads", 30, 2, 600, 8), ("sibs", 1, 4, 3, 16)], corr=["search", "display"], oracles=["C18", "FUN"]),
     "C19": dict(suites=[("hist", 100, 4, 1500, 16), ("pairs", 1, 4, 2, 16), ("regs", 1, 4, 2, 8)], corr=["insert", "delete", "constraint", "render"], oracles=["C19", "C08", "C09"]),
